@@ -39,7 +39,7 @@ ASSUMPTIONS = common.BASE_ASSUMPTIONS + [
 REAL_VS_STUB = common.REAL_VS_STUB
 QUICK_RUNS = 36000
 EXPECTED_PROBES = {
-    t: ["fault_sub", "fault_ins", "fault_del", "fault_trunc", "fault_reseal", "accepted_well_formed_after_fault", "zero_length_frame_insertions", "rejected_UBXParseError", "valnone_cases", "stream_cases", "stale_length_valid_checksum", "checksum_field_values"]
+    t: ["fault_sub", "fault_ins", "fault_del", "fault_trunc", "fault_reseal", "accepted_well_formed_after_fault", "zero_length_frame_insertions", "rejected_UBXParseError", "valnone_cases", "stream_cases", "stale_length_valid_checksum", "checksum_field_values", "short_inputs"]
     for t in ("quick", "thorough")
 }
 
@@ -116,6 +116,12 @@ def judge_valnone(frame: bytes, ck: bytes, msgmode: int):
             return ("valnone_attributes_differ", f"{bad.hex()} msgmode={msgmode}: {_public(v2)} != {_public(v1)}")
     elif k2 == "ret" or type(v1) is not type(v2):  # pylint: disable=unidiomatic-typecheck
         return ("valnone_outcome_differs", f"intact frame -> {k1} {type(v1).__name__}, corrupted checksum with VALNONE -> {k2} {type(v2).__name__ if k2 != 'ret' else v2!r}")
+    # the very bytes VALNONE has just let through must still be refused under VALCKSUM
+    k3, v3 = _parse(bad, msgmode, validate=1)
+    if k3 == "ret":
+        return ("malformed_input_accepted_after_valnone_parse", f"parse({bad.hex()}, VALCKSUM, msgmode={msgmode}) returned {v3!r} right after the same bytes were parsed with VALNONE")
+    if k3 != "parse_error":
+        return ("corruption_not_rejected_with_UBXParseError", f"parse({bad.hex()}, VALCKSUM) after a VALNONE parse -> {k3}: {type(v3).__name__}")
     return None
 
 
@@ -220,6 +226,22 @@ def _sweep_unit(unit, res):
                 if v is not None and len(res.violations) < 4:
                     res.violations.append({"seed": 0, "mode": "datagram", "frames": [fr], "msgmode": 0, "from_valid": True, "clause": v[0], "detail": v[1]})
         res.log(("ckfield", unit["ladder"], unit["range"]), True)
+    elif what == "short":
+        # every class/id x extreme length fields, truncated to fewer than 8 bytes: what is left of a
+        # valid frame (e.g. one announcing 65535 payload bytes) when the link dies right after the header
+        for cls in range(unit["range"][0], unit["range"][1]):
+            for mid in range(256):
+                for lenf in (b"\x00\x00", b"\x01\x00", b"\xff\x00", b"\x00\xff", b"\xfe\xff", b"\xff\xff"):
+                    head = bytes((0xB5, 0x62, cls, mid)) + lenf
+                    ck = W.fletcher8(head[2:])
+                    for x in (head, head + ck[0:1], head + ck[1:2], head[:5], head[:4], head + lenf[1:2]):
+                        v = judge_datagram(x, 0, True)
+                        res.evaluations += 1
+                        if v is not None and len(res.violations) < 4:
+                            res.violations.append({"seed": 0, "mode": "datagram", "frames": [{"kind": "ubx", "hex": x.hex(), "faults": [], "note": "truncated header of a frame with an extreme length field"}], "msgmode": 0, "from_valid": True, "clause": v[0], "detail": v[1]})
+                res.counters.hit("short_inputs", 36)
+                res.counters.hit("fault_trunc", 36)
+        res.log(("short", unit["range"]), True)
     elif what == "valnone":
         for a in range(256):
             for b in (frame[-1], (frame[-1] + 1) & 0xFF, 0x00, 0xFF):
@@ -326,6 +348,8 @@ def batches(tier, base_seed):
         step = 8
         for lo in range(0, n, step):
             yield [{"sweep": "sub", "basket": b, "range": [lo, lo + step]}]
+    for lo in range(0, 256, 16 if tier != "selftest" else 256):
+        yield [{"sweep": "short", "range": [lo, lo + 16 if tier != "selftest" else 2]}]
     for lad in range(LADDER_N.get(tier, 5)):
         for hi in range(0, 256, 16):
             yield [{"sweep": "ckfield", "ladder": lad, "range": [hi, hi + 16]}]
